@@ -48,6 +48,10 @@ for d in sorted(glob.glob(os.path.join(V, "seeded", "*", "*"))):
     elif "error" in r: out = "ERROR: " + r["error"][:60]
     else:
         parts = []
+        if meta.get("expected") == "pass":
+            out = "harmless change (control): " + "; ".join("%s: %s" % (ck, "exit 0 as expected" if c["rc"] == 0 else "UNEXPECTED alarm (exit %s)" % c["rc"]) for ck, c in r["checks"].items())
+            srows.append("| %s | %s | %s | %s | %s |" % (pid, name, "control", str(meta.get("summary") or "")[:160].replace("|", "/"), out))
+            continue
         for ck, c in r["checks"].items():
             parts.append("%s: %s" % (ck, ("VIOLATION with failing input" if c.get("with_input") else "VIOLATION no-failing-input-found") if c["caught"] else "MISSED (exit %s)" % c["rc"]))
         out = "; ".join(parts)
